@@ -34,10 +34,22 @@ Lemma rng_stable k s s' : peer s' = peer s -> addr s' = addr s -> busy s' = busy
   (rack s' = rack s \/ rack s' = (rack s + confs s) mod 16) -> sock_rng k s -> sock_rng k s'.
 Proof. unfold sock_rng. intros -> -> _ _ Hr (A & B & C). repeat split; try lia; destruct Hr as [->| ->]; lia. Qed.
 
+(* encryption replaces the information field of a UI / I PDU only *)
+Lemma hdr_enc c p : hdr_ok p -> hdr_ok (maybe_encrypt c p).
+Proof.
+  intro H. unfold maybe_encrypt. destruct (sec c) as [k|]; [|exact H]. destruct (is_ui_i p) eqn:E; [|exact H].
+  unfold hdr_ok in *. cbn [da sa pt ns nr body]. unfold is_ui_i in E.
+  destruct H as (A & B & C & D & F & Hdm & Hfr & R). repeat split; try tauto; intro; exfalso; ptc; lia.
+Qed.
+
 (* collect keeps wire_ok and emits only hdr_ok PDUs *)
-Lemma collect_wire c st st' f : 1 <= send_miu c -> wire_ok st -> collect c st = Ok (st', f) ->
-  wire_ok st' /\ Forall hdr_ok (frame_pdus f) /\ frame_info f <= send_miu c.
-Proof. intros HM I H. exact (collect_spec hdr_ok sock_rng hdr_nr hdr_ack hdr_snl rng_stable c st st' f HM I H). Qed.
+Lemma collect_wire c st st' f : cipher_ok c -> 1 <= send_miu c -> wire_ok st -> collect c st = Ok (st', f) ->
+  wire_ok st' /\ Forall hdr_ok (frame_pdus f) /\ frame_info f <= frame_limit c f.
+Proof.
+  intros Hc HM I H.
+  exact (collect_spec hdr_ok hdr_ok sock_rng c hdr_nr hdr_ack hdr_snl rng_stable Hc (fun p Hp => hdr_enc c p Hp)
+           (fun p Hp _ => Hp) st st' f HM I H).
+Qed.
 
 (* ------------------------------------------------------------------ encoding facts *)
 Lemma len_enc_hdr p : len (enc_hdr p) = hsize p.
@@ -111,14 +123,14 @@ Proof.
   cbn [map]. rewrite rx_leaf by exact Hp. cbn [bind]. rewrite (IH Hh'). reflexivity.
 Qed.
 
-Theorem agf_transparent_wire c st st' f : 1 <= send_miu c <= 65000 -> wire_ok st -> collect c st = Ok (st', f) ->
+Theorem agf_transparent_wire c st st' f : cipher_ok c -> 1 <= send_miu c <= 65000 -> wire_ok st -> collect c st = Ok (st', f) ->
   f <> FNone -> receive (enc_frame f) = Ok (frame_pdus f).
 Proof.
-  intros HM I H Hf. destruct (collect_wire c st st' f ltac:(lia) I H) as (_ & Hh & Hb).
+  intros Hc HM I H Hf. destruct (collect_wire c st st' f Hc ltac:(lia) I H) as (_ & Hh & Hb).
   destruct f as [|p|l]; [congruence| |]; unfold receive; cbn [enc_frame frame_pdus] in *.
   - inversion Hh; subst. apply rx_leaf. assumption.
   - cbn [app length]. apply (rx_agf _ l Hh). apply Forall_forall. intros p Hp.
-    pose proof (agf_info_in p l Hp). cbn [frame_info] in Hb. lia.
+    pose proof (agf_info_in p l Hp). unfold frame_limit in Hb. cbn [frame_info] in Hb. lia.
 Qed.
 
 (* the information field measured on the abstract frame is the one of the encoded bytes *)
